@@ -800,6 +800,13 @@ func c17History(seed uint64, idx int, big bool) (res c17Hist, err error) {
 	for i := 0; i < capacity+6; i++ {
 		g.pool = append(g.pool, c17Uuid(r))
 	}
+	// the two extreme ids are ids like any other
+	switch idx % 4 {
+	case 1:
+		g.pool[0] = uuid.Nil
+	case 3:
+		g.pool[0] = uuid.Max
+	}
 	entryA := r.IntN(nservers)
 	cl, err := c17Start(nservers, maxCount)
 	if err != nil {
